@@ -5,7 +5,7 @@ open Drv_common
 let run_fallback (parts : string list) : string =
   let f = fields parts in
   let udp = match fld f "udp" with
-    | "plain" -> Some (false, n_of_int 1) | "tc" -> Some (true, n_of_int 12) | _ -> None in
+    | "plain" | "bigplain" -> Some (false, n_of_int 1) | "tc" | "bigtc" -> Some (true, n_of_int 12) | _ -> None in
   let tcp = match fld f "tcp" with "reply" -> Some (false, n_of_int 2) | _ -> None in
   let (r, attempts) = fb_run udp tcp in
   let res = match r with
